@@ -20,7 +20,7 @@ MC_NOTE = ('breadth-first by formula size; state = (atom tuple, formula, style);
            'model evaluation; every formula is run on the real binary and compared')
 ASSUMPTIONS = ['atoms are over always-present columns (size, name, is_dir, hardlinks)',
                'rows(atom) observed from fselect itself is the atom\'s meaning (C02 decides atoms)']
-BUDGET = {'quick': 50, 'thorough': 1500}
+BUDGET = {'quick': 57, 'thorough': 1500}
 
 # (text, kind, positive-form-for-infix-not or None)
 ATOMS = {
